@@ -670,13 +670,15 @@ pub struct Asm {
     pub seed: u64,
 }
 
-const ASM_LINES: [&str; 26] = [
+const ASM_LINES: [&str; 28] = [
     "  mov   eax,  1", "@L1:   add eax,ebx", "    push ebx;  pop  ebx", "  mov al, 'a'", "  db \"str\\\"ing\" , 0",
     "  mov eax,{$ifdef CPUX64}1   {$else}2{$endif}", "  jmp  @@end_label", "  mov eax, [ebx+4*ecx]  // comment", "  {comment}   nop",
     "\tRET", "  mov eax, 0FFh", "  and eax, 1010b", "  call   System.@HandleFinally", "  MOV  ECX , [EAX].TFoo.Bar", "   lea  rax,[rip+Value]",
     "  fld   qword ptr [esp]", "  db 0,1 , 2,3", "@@end_label:", "  mov &end1, 1", "  mov ax, 17o ; inc   ax", "    xor\teax,\teax", "  test al, $80",
     // conditional directives inside an instruction, followed by more of the instruction (kept verbatim; at the very end of the line: F16)
     "  mov   eax,{$ifdef CPUX64}1   {$else}2{$endif}  ;nop", "  mov {$ifdef X}eax{$else}ebx{$endif},  1", "  mov eax, {$ifdef X} 1 {$endif} ; x", "  add   ecx,{$ifopt R+}4{$else}8{$endif},  eax",
+    // an instruction that is ended by `;` (when it is the last one, the line of the closing `end` starts empty)
+    "  mov  eax, 1;", "  nop ;",
 ];
 
 impl Suite for Asm {
@@ -716,7 +718,8 @@ impl Suite for Asm {
                 }
             }
             let start = text.len();
-            let k = rng.gen_range(1..7);
+            // (now and then an empty body)
+            let k = if rng.gen_range(0..12) == 0 { 0 } else { rng.gen_range(1..7) };
             let mut body = String::new();
             // now and then a toggle region is open inside the body and ends (or starts) in the middle of an instruction line:
             // the instruction lines are verbatim anyway
